@@ -87,6 +87,8 @@ Conf ==
     CASE e.name = "reset" -> TRUE
       [] e.name = "restore" -> TRUE
       [] e.name = "Obs" -> UNCHANGED svars
+      [] e.name \in {"TxBegin", "TxCommit"} -> UNCHANGED svars /\ cb' = <<>>
+      [] e.name = "TxAbort" -> TRUE
       [] e.name = "Genesis" -> UNCHANGED svars
       [] e.name = "PrepZeroHeight" -> e.ok /\ PrepZeroHeight
       [] e.name = "Restart" -> e.ok /\ stopped /\ Restart(now')
@@ -341,7 +343,7 @@ TraceNext ==
     /\ cb' = [i \in DOMAIN Trace[l + 1].cb |-> CbOf(Trace[l + 1].cb[i])]
     /\ ev' = Trace[l + 1].ev
     /\ hist' = IF ev'.name = "reset" THEN HistInit
-               ELSE IF ev'.name = "restore" THEN HistUnknown(ctx')
+               ELSE IF ev'.name \in {"restore", "TxAbort"} THEN HistUnknown(ctx')
                ELSE IF ev'.name = "Restart" THEN HistRestart(ctx') ELSE HistNext
     /\ stopped' = IF ev'.name \in {"reset", "restore"} \/ (ev'.name = "Restart" /\ ev'.ok) THEN FALSE
                   ELSE (stopped \/ ev'.name = "PrepZeroHeight")
